@@ -1,4 +1,5 @@
 import Litestream.Model.Follow
+import Litestream.Gen.Follow
 import Litestream.Driver.Plan
 /-! Driver handlers for follow mode (C16). -/
 namespace Litestream.Driver
@@ -22,7 +23,7 @@ def fmtResume : Except ResumeErr Unit → String
 /-- `resume TX=<sidecar txid> F=…` → the verdict of Restore's crash-recovery validation. -/
 def handleFollowResume (args : List (String × String)) : String :=
   match natArg? args "TX", (arg? args "F").bind parseFiles? with
-  | some t, some fs => fmtResume (resumeCheck fs t)
+  | some t, some fs => fmtResume (resumeCheck Gen.resumeBound fs t)
   | _, _ => "bad-op"
 
 /-- Iterate polls on a fixed listing until the TXID stops moving (at most `fuel` polls). -/
